@@ -23,7 +23,8 @@ Import ListNotations.
 Require Import Cat CatFacts Unify GramPrims GenTables GenEn EnSpec.
 Require Import WC03.Tbl.
 Open Scope N_scope.
-Definition g (i : N) : cat := nth (N.to_nat i) T (Atom [] FNone).
+(* the interned categories: sub-tables of TSIZE entries *)
+Definition g (i : N) : cat := nth (N.to_nat (i mod TSIZE)) (nth (N.to_nat (i / TSIZE)) TT []) (Atom [] FNone).
 Definition dummy_ := {| rcat := Atom [] FNone; op_string := []; op_symbol := []; head_is_left := false |}.
 Definition mkr (p : N * N) : cres :=
   let t := nth (N.to_nat (snd p)) L dummy_ in
@@ -152,7 +153,8 @@ def run(ctx):
                 ctx.count(f'outcome:{kind}:{res[1]}')
             if strict:
                 ctx.count(f'observed:bx_or_gbx_over_a_bare_N_NP_on_the_left_functor_side:{kind}')
-                ctx.sample({'bx_over_left_bare': [str(x), str(y), sig(res)]}, limit=8)
+                if kind.startswith(('closure', 'inventory')):
+                    ctx.sample({'observed_bx_over_bare_N_NP_on_the_left_functor_side': [str(x), str(y), sig(res)]}, limit=2)
             for k, why in fails:
                 nfail[0] += 1
                 ctx.fail(k, f'en.apply_binary_rules({str(x)!r}, {str(y)!r}): {why}',
@@ -391,7 +393,8 @@ def compile_table(ctx, cats, labels):
         fn = os.path.join(ctx.work, 'Tbl.v')
         with open(fn, 'w') as f:
             f.write(head + ''.join(f'Require Import W{ctx.pid}.T{k}.\n' for k in range(len(parts))))
-            f.write('Definition T : list cat := Eval vm_compute in (' + ' ++ '.join(f't{k}' for k in range(len(parts))) + ').\n')
+            f.write('Definition TT : list (list cat) := [' + '; '.join(f't{k}' for k in range(len(parts))) + '].\n')
+            f.write(f'Definition TSIZE : N := {n}.\n')
             f.write('Definition L : list cres := [' + ';\n'.join(
                 f'{{| rcat := Atom [] FNone; op_string := {lit(a)}; op_symbol := {lit(b)}; head_is_left := {gbool(h)} |}}' for (a, b, h) in labels) + '].\n')
         rc, out, err, _ = common.sh(['timeout', '600', 'coqc'] + flags + [fn])
